@@ -378,8 +378,10 @@ def skip_hypothesis_coverage(ctx, res, gid_filter=None):
         for gid, gi in res.grammars.items():
             if "sexp" in gi and (not gid_filter or gid_filter(gid)) and fws_python(gi)["atomic_like"] != fws_predicates(gi)["like"] and len(dis) < 60:
                 dis.append({"grammar": gid, "python_atomic_like": fws_python(gi)["atomic_like"], "lean_like": fws_predicates(gi)["like"]})
-    ctx.coverage.setdefault("distribution", {})["skip_hypotheses"] = st
-    ctx.coverage["fws_python_vs_lean"] = dis
+    suite = (getattr(res, "meta", {}) or {}).get("suite", "?")
+    ctx.coverage.setdefault("distribution", {}).setdefault("skip_hypotheses", {})[suite] = st
+    ctx.coverage.setdefault("fws_python_vs_lean", [])
+    ctx.coverage["fws_python_vs_lean"] += [dict(d, suite=suite) for d in dis]
 
 
 def threeway(ctx, res, want_tokens, gid_filter=None, want_stack=False, lean_tokens=None, skip_fws=False):
@@ -503,6 +505,11 @@ def check_C07(ctx):
     tie_tgen(ctx, ctx.tier, ctx.seed)      # every SKIP / INHERITED argument the generator emits vs Model.Gen
     from .spectok import tie_spectok
     threeway(ctx, res, want_tokens=True, gid_filter=lambda g: g in skipg, lean_tokens=tie_spectok(ctx, res))
+    # skipping inside the counted repetitions the generator emits without pest's optimizer (RepMinMax & co. have their own skip handling)
+    noopt = suites.suite_run_noopt(ctx.tier, ctx.seed)
+    skipn = {gid for gid, gi in noopt.grammars.items() if re.search(r"WHITESPACE|COMMENT", gi["text"])}
+    ctx.tie("T-run-noopt:offsets-tokens", noopt, ["v", "end", "tok"], lambda c: c[0] in skipn and c[2] in ("parse_partial", "parse", "check_partial"))
+    threeway(ctx, noopt, want_tokens=False, gid_filter=lambda g: g in skipn)
 
 
 
@@ -570,6 +577,10 @@ def check_C06(ctx):
     stackg = {gid for gid, gi in run.grammars.items() if gi.get("uses_stack")}
     ctx.tie("T-run:stack-grammars", run, ["v", "end", "stk", "trk"], lambda c: c[0] in stackg)
     threeway(ctx, run, want_tokens=False, gid_filter=lambda g: g in stackg, want_stack=True, skip_fws=True)
+    # the stack grammars derived with `#[pest_optimizer = false]` (stack operations inside RepMinMax & co.), against the Spec of the RAW AST
+    noopt = suites.suite_run_noopt(ctx.tier, ctx.seed)
+    ctx.tie("T-run-noopt:stack-grammars", noopt, ["v", "end", "stk", "trk"])
+    threeway(ctx, noopt, want_tokens=False, want_stack=True, skip_fws=True)
 
 
 def _c19_impl_obs(io):
@@ -790,8 +801,13 @@ def check_C05(ctx):
 
 def check_C04(ctx):
     ctx.rule_text = RUN_RULE + "; for every (rule, input): try_parse vs (try_parse_partial, then the grammar's WHITESPACE/COMMENT rules applied repeatedly through their own public rule structs at the reached offset unless the rule is @/$, then end test); inputs include ones ending in skippable text and in text that only looks skippable"
-    res = suites.suite_run(ctx.tier, ctx.seed)
-    ctx.tie("T-run:full-entry", res, ["v", "stk", "trk", "tok"], lambda c: c[2] in ("parse", "check"))
+    _c04_suite(ctx, suites.suite_run(ctx.tier, ctx.seed), "T-run:full-entry")
+    # the same oracle on the part of the corpus derived with `#[pest_optimizer = false]` (counted repetitions as RepMinMax & co.)
+    _c04_suite(ctx, suites.suite_run_noopt(ctx.tier, ctx.seed), "T-run-noopt:full-entry")
+
+
+def _c04_suite(ctx, res, tie_name):
+    ctx.tie(tie_name, res, ["v", "stk", "trk", "tok"], lambda c: c[2] in ("parse", "check"))
     api_oracle(ctx, res)
     # independent skip closure from the implementation's own answers for the skip rules
     at = {}
@@ -868,7 +884,9 @@ def check_C04(ctx):
         elif pio.get("v") == "ok" and int(pio["end"]) == hi and fio.get("v") != "ok":
             ctx.violation("try_parse rejects a sub-input whose prefix parse already ends at the end of the input", c,
                           partial={k: pio.get(k) for k in ("v", "end")}, kind=kind)
-    ctx.coverage.setdefault("distribution", {}).update(hist)
+    dist = ctx.coverage.setdefault("distribution", {})
+    for k, v in hist.items():
+        dist[k] = dist.get(k, 0) + v
 
 
 # ---------------------------------------------------------------------------------------------
@@ -1095,8 +1113,18 @@ def check_C10_report(ctx, c, io, pos, hist):
 
 def check_C10(ctx):
     ctx.rule_text = RUN_RULE + "; every rejected case (whole strings, Position and Span sub-inputs, all four entry points): location inside the (sub-)input / on a boundary / not before the end of the prefix the partial entry point of the same path matched; for sub-inputs the report equals the report on a fresh copy of the slice moved by the start offset; same report when the case is repeated (each case appears under parse and check and in several batches); for grammars without stack operations and without implicit skipping every rule listed as expected (unexpected) is re-run at the reported offset through its own rule struct and must fail (match); the report is rendered (Tracker::collect, Display of the error): no panic, line:column = the location recomputed from the input text, first line of the message = text of the line up to the column + ^---"
-    res = suites.suite_run(ctx.tier, ctx.seed)
-    ctx.tie("T-run:tracker", res, ["v", "trk"])
+    hist = {"rejected": 0, "rejected_sub_inputs": 0, "sub_input_location_vs_fresh_slice": 0, "prefix_end_checked": 0, "expected_checked": 0, "unexpected_checked": 0,
+            "rendered": 0, "rendered_after_line_1": 0, "rendered_multibyte_prefix": 0, "rendered_cr_in_prefix": 0, "rendered_both_lists": 0, "rendered_special": 0}
+    _c10_suite(ctx, suites.suite_run(ctx.tier, ctx.seed), "T-run", hist)
+    # the same oracle on the part of the corpus derived with `#[pest_optimizer = false]` (what RepMinMax & co. record and report)
+    _c10_suite(ctx, suites.suite_run_noopt(ctx.tier, ctx.seed), "T-run-noopt", hist)
+    ctx.coverage.setdefault("distribution", {}).update(hist)
+    ctx.assumptions.append("the rendered message and line:column are tied to Model/Message.lean (T-run:message); pest's own Display of the error (external code) is only run under catch_unwind")
+
+
+
+def _c10_suite(ctx, res, label, hist):
+    ctx.tie(label + ":tracker", res, ["v", "trk"])
     at = {}
     at_span = {}
     fresh_fail = {}
@@ -1110,9 +1138,7 @@ def check_C10(ctx):
             fresh_fail[(c[0], c[1], c[2], c[6])] = io["trk"]
         if io.get("v") == "fail" or mo.get("v") == "fail":
             failing.add(c)
-    ctx.tie("T-run:message", res, ["msg", "lc"], lambda c: c in failing)
-    hist = {"rejected": 0, "rejected_sub_inputs": 0, "sub_input_location_vs_fresh_slice": 0, "prefix_end_checked": 0, "expected_checked": 0, "unexpected_checked": 0,
-            "rendered": 0, "rendered_after_line_1": 0, "rendered_multibyte_prefix": 0, "rendered_cr_in_prefix": 0, "rendered_both_lists": 0, "rendered_special": 0}
+    ctx.tie(label + ":message", res, ["msg", "lc"], lambda c: c in failing)
     for key, ent in group_by_input(res).items():
         for en in ("parse", "parse_partial", "check", "check_partial"):
             if en not in ent:
@@ -1174,8 +1200,6 @@ def check_C10(ctx):
                             hist["unexpected_checked"] += 1
                             if v == "fail":
                                 ctx.violation("rule listed as unexpected fails at the reported location", c, rule=r, position=pos)
-    ctx.coverage.setdefault("distribution", {}).update(hist)
-    ctx.assumptions.append("the rendered message and line:column are tied to Model/Message.lean (T-run:message); pest's own Display of the error (external code) is only run under catch_unwind")
 
 
 def pre_C06(ctx):
